@@ -85,10 +85,25 @@ func (x *Exec) funcValueKey(v ssa.Value) string {
 }
 
 func (x *Exec) calleeAssigns(c *ssa.CallCommon) []assignItem {
-	fc, _, _ := x.calleeContract(c)
+	fc, _, callee := x.calleeContract(c)
 	if fc == nil {
-		if b, ok := c.Value.(*ssa.Builtin); ok {
-			_ = b
+		if _, ok := c.Value.(*ssa.Builtin); ok {
+			return nil
+		}
+		if callee != nil {
+			switch callee.String() {
+			case "fmt.Errorf", "errors.New":
+				return []assignItem{{key: "brk", mode: "any"}}
+			case "errors.Is":
+				return nil
+			case "errors.As":
+				if mi, ok := c.Args[1].(*ssa.MakeInterface); ok {
+					k, _ := x.enc.heapKeyFor(deref(mi.X.Type()))
+					return []assignItem{{key: k, mode: "any"}}
+				}
+			}
+		}
+		if x.scalarArgsOnly(c) {
 			return nil
 		}
 		return []assignItem{{key: "*", mode: "any"}}
@@ -163,9 +178,13 @@ func (x *Exec) call(in ssa.Instruction, c *ssa.CallCommon, res ssa.Value) {
 	}
 	pre := x.st.clone()
 	if fc == nil {
-		// unknown callee: havoc everything
-		e.note("%s: call to %s has no contract: all state havoced", x.name, key)
-		x.havocAll()
+		if x.scalarArgsOnly(c) {
+			e.assumptionsUsed["uncontracted callee with scalar-only arguments has no effect on modelled state: "+key] = true
+		} else {
+			// unknown callee: havoc everything
+			e.note("%s: call to %s has no contract: all state havoced", x.name, key)
+			x.havocAll()
+		}
 	} else {
 		cenv := &Env{x: x, st: x.st, old: x.st, binders: binders, bound: map[string]Val{}, closed: true}
 		for _, cl := range fc.Requires {
@@ -192,6 +211,12 @@ func (x *Exec) call(in ssa.Instruction, c *ssa.CallCommon, res ssa.Value) {
 	if res != nil && tup.Len() > 0 {
 		x.vals[res] = rv
 	}
+	for i, r := range results {
+		if r.Tup == nil && r.T != "" && (r.Sort == "Int" || r.Sort == "Bool") {
+			x.retCount++
+			x.inputs[fmt.Sprintf("ret%d:%s.%d", x.retCount, key, i)] = r.T
+		}
+	}
 	if fc != nil {
 		cenv := &Env{x: x, st: x.st, old: pre, binders: binders, bound: map[string]Val{}, closed: true, results: results, resNames: rnames}
 		for _, cl := range fc.Ensures {
@@ -209,6 +234,33 @@ func (x *Exec) call(in ssa.Instruction, c *ssa.CallCommon, res ssa.Value) {
 	x.atClauses("call-post", pats, args, results, pre, c)
 }
 
+// scalarArgsOnly: no argument can carry a reference into modelled state.
+func (x *Exec) scalarArgsOnly(c *ssa.CallCommon) bool {
+	if c.IsInvoke() {
+		return false
+	}
+	if fn := c.StaticCallee(); fn != nil && fn.Pkg != nil && strings.HasPrefix(fn.Pkg.Pkg.Path(), modPath) {
+		return false // functions of the module itself need a contract
+	}
+	scalar := func(t types.Type) bool {
+		t = types.Unalias(t)
+		if isNamed(t, "time", "Time") || isNamed(t, "net/netip", "Addr") || isNamed(t, "net/netip", "Prefix") {
+			return true
+		}
+		switch u := t.Underlying().(type) {
+		case *types.Basic:
+			return u.Kind() != types.UnsafePointer
+		}
+		return false
+	}
+	for _, a := range c.Args {
+		if !scalar(a.Type()) {
+			return false
+		}
+	}
+	return true
+}
+
 func shortCallee(key string) string {
 	if i := strings.LastIndex(key, "/"); i >= 0 {
 		key = key[i+1:]
@@ -218,13 +270,15 @@ func shortCallee(key string) string {
 
 func (x *Exec) havocAll() {
 	e := x.enc
-	for k := range e.heapSort {
+	ob := e.heapGet(x.st, "brk")
+	epochCounter++
+	x.st.Epoch = epochCounter
+	for k := range x.st.H {
 		if k == "brk" || strings.HasPrefix(k, "L:") {
 			continue
 		}
-		e.heapHavoc(x.st, k)
+		delete(x.st.H, k)
 	}
-	ob := e.heapGet(x.st, "brk")
 	nb := e.heapHavoc(x.st, "brk")
 	e.assume("", fmt.Sprintf("(>= %s %s)", nb, ob))
 }
@@ -631,7 +685,7 @@ func (x *Exec) special(callee *ssa.Function, c *ssa.CallCommon, args []Val, res 
 	case "fmt.Errorf", "errors.New":
 		declErr()
 		r := x.freshVal("err", res.Type(), x.brk(), x.guard)
-		e.assume(x.guard, fmt.Sprintf("(not (= (itag %s) 0))", r.T))
+		e.assume(x.guard, fmt.Sprintf("(and (not (= (itag %s) 0)) (>= (ival %s) 0))", r.T, r.T))
 		wrapped := ""
 		if full == "fmt.Errorf" {
 			if fc, ok := c.Args[0].(*ssa.Const); ok && fc.Value != nil && strings.Contains(constant.StringVal(fc.Value), "%w") {
